@@ -281,6 +281,18 @@ func (s *Scheme) runDKG(ctx context.Context, membership *membership, dkgProtocol
 	ctx, cancel := context.WithCancel(ctx)
 	defer cancel()
 
+	// The handler of the membership synchronization is registered by the continuation below. The call removes it on
+	// its way out; a continuation that outlives the call leaves it alone, as it may be a later session's by then.
+	var membersSyncTopic []byte // guarded by s.lock
+	defer func() {
+		cancel()
+		s.lock.Lock()
+		if membersSyncTopic != nil {
+			delete(s.syncsInProgress, string(membersSyncTopic))
+		}
+		s.lock.Unlock()
+	}()
+
 	callback := func(members []uint16) {
 		verifPoint("dkg.callbackStart")
 		universalIds := UIntsToUniversalIDs(members)
@@ -350,12 +362,21 @@ func (s *Scheme) runDKG(ctx context.Context, membership *membership, dkgProtocol
 		})
 
 		s.lock.Lock()
+		// Do not register anything for a session that is already over
+		if ctx.Err() != nil {
+			s.lock.Unlock()
+			return
+		}
 		s.syncsInProgress[string(membersSyncTopicHash)] = sync.HandleMessage
+		membersSyncTopic = membersSyncTopicHash
 		s.lock.Unlock()
 
 		defer func() {
 			s.lock.Lock()
-			delete(s.syncsInProgress, string(membersSyncTopicHash))
+			if ctx.Err() == nil {
+				delete(s.syncsInProgress, string(membersSyncTopicHash))
+				membersSyncTopic = nil
+			}
 			s.lock.Unlock()
 		}()
 
